@@ -29,6 +29,8 @@ use std::ops::Deref;
 /// ```
 pub fn linear_space(start: f64, end: f64, n: usize) -> DiscreteDomain {
     let mut values = Vec::with_capacity(n);
+    // A discrete domain is always ascending, so the bounds are put in order first
+    let (start, end) = (start.min(end), start.max(end));
     let step = (end - start) / (n - 1) as f64;
     for i in 0..n {
         values.push(start + i as f64 * step);
@@ -63,8 +65,7 @@ impl DiscreteDomain {
     /// returns: DiscreteDomain
     pub fn linear(start: f64, end: f64, n: usize) -> Self {
         let mut values = Vec::with_capacity(n);
-        let start = start.min(end);
-        let end = start.max(end);
+        let (start, end) = (start.min(end), start.max(end));
         let step = (end - start) / (n - 1) as f64;
         for i in 0..n {
             values.push(start + i as f64 * step);
